@@ -150,7 +150,11 @@ def run_plan(plan: dict, replay=None) -> dict:
             probes.clear_trace()
             cgs = compiled.init_state(G, eo.gs0, e, record=dict(params=True, rng=True, inputs=True, state=True, output=True))
             t2 = time.time()
-            out, obs = compiled.drive(G, cgs, cc["api"], G.max_steps)
+            try:
+                out, obs = compiled.drive(G, cgs, cc["api"], G.max_steps)
+            except compiled.DriveRaised as ex:
+                viol.append(dict(clause="c01-compiled-replay-raised", signature="c01-raised", episode=e, compile=cc, detail=str(ex)[-600:]))
+                break
             run_s += time.time() - t2
             c_evs = probes.take_trace()
             c_idx, dup = index_events(c_evs)
